@@ -293,6 +293,47 @@ func genHub(c *ctx) *leanFile {
 		}
 	}
 	l.boolean("federatedClearedOnRemove", fedCleared, fdRemove != nil, "Hub.removeSession not found")
+
+	// the number of registered sessions a backend reports (to the limit check and to cluster peers) is the
+	// size of the set of registered sessions itself, read under its lock -- not a separately kept counter
+	fdLen := findFunc(bc, "Backend", "Len")
+	lenIsSet := false
+	if fdLen != nil && fdLen.Body != nil {
+		locked := false
+		ast.Inspect(fdLen.Body, func(nd ast.Node) bool {
+			switch x := nd.(type) {
+			case *ast.CallExpr:
+				if sel, ok := x.Fun.(*ast.SelectorExpr); ok && selectorEndsWith(sel.X, "sessionsLock") && (sel.Sel.Name == "Lock" || sel.Sel.Name == "RLock") {
+					locked = true
+				}
+			case *ast.ReturnStmt:
+				if len(x.Results) == 1 {
+					if call, ok := x.Results[0].(*ast.CallExpr); ok && isIdent(call.Fun, "len") && len(call.Args) == 1 &&
+						selectorEndsWith(call.Args[0], "sessions") && locked {
+						lenIsSet = true
+					}
+				}
+			}
+			return true
+		})
+	}
+	l.boolean("sessionCountIsSetSize", lenIsSet, fdLen != nil, "Backend.Len not found")
+
+	// a backend room request is dropped as outdated only against the newest request of the SAME type
+	// (a delete is not overtaken by a newer update): the timestamp table is indexed by the request type
+	fdReq := findFunc(room, "Room", "processBackendRoomRequestRoom")
+	perType := false
+	if fdReq != nil && fdReq.Body != nil {
+		ast.Inspect(fdReq.Body, func(nd ast.Node) bool {
+			if ix, ok := nd.(*ast.IndexExpr); ok && selectorEndsWith(ix.X, "lastRoomRequests") {
+				if sel, ok := ix.Index.(*ast.SelectorExpr); ok && sel.Sel.Name == "Type" {
+					perType = true
+				}
+			}
+			return true
+		})
+	}
+	l.boolean("roomRequestOrderPerType", perType, fdReq != nil, "Room.processBackendRoomRequestRoom not found")
 	return l
 }
 
